@@ -7,6 +7,11 @@ import engine as E
 from mirexec import Agg, Enum, Ref, Unsupported, mk_enum
 
 
+class _PolyR:
+    nonfinite_const = False
+    names = {}
+
+
 class Query:
     def __init__(self, name, asserts, expect="unsat", mode="R", timeout=60, get=None, meta=None, nontrivial=True, witness=None):
         """asserts: list of Bool terms whose conjunction is checked.
@@ -27,6 +32,10 @@ class Query:
         self.witness_status = None
 
     def script(self, asserts=None):
+        if asserts is None and getattr(self, "poly_text", None) is not None:
+            # change-of-variables form (vlib/polyq.py): the script is already text
+            self.term_names = dict(getattr(self, "poly_term_names", {}))
+            return self.poly_text, _PolyR
         r = T.Render(self.mode)
         if asserts is None:
             ax = T.bits_axioms(self.asserts)
@@ -48,6 +57,8 @@ def _run(q):
             return q
         st, model, secs, raw = E.solve(sc, q.timeout, q.solver)
         q.status, q.model, q.secs, q.raw = st, model, secs, raw[:2000]
+        if getattr(q, "poly_text", None) is not None and q.model and getattr(q, "poly_back", None):
+            q.model = q.poly_back(q.model)
         if q.witness is not None and st == "unsat":
             sc2, _ = q.script(q.witness)
             st2, m2, s2, raw2 = E.solve(sc2, min(q.timeout, 30), q.solver)
